@@ -331,6 +331,10 @@ def apply(m, mut):
             lo, hi = hi, lo
         elif kind == "grow":
             hi = hi + dx
+        elif kind in ("lo-", "lo+", "hi-", "hi+"):
+            # a bound off by 0.4 cell, downwards or upwards (a fraction of a cell, but well beyond any rounding)
+            sh = (-0.4 if kind[2] == "-" else 0.4) * dx
+            lo, hi = (lo + sh, hi) if kind[:2] == "lo" else (lo, hi + sh)
         m.header[ln] = "%.17g %.17g" % (lo, hi)
         return True
     if op == "ws":      # whitespace edits in headers (C20)
@@ -421,7 +425,7 @@ def singles(model, coords=False, textual=False):
             out.append(["fod", lv, b, "drop_token", None])
             if coords:
                 for d in range(nd):
-                    for kind in ("move", "swap", "grow"):
+                    for kind in ("move", "swap", "grow", "lo-", "lo+", "hi-", "hi+"):
                         out.append(["bound", lv, b, d, kind])
         if textual:
             out.append(["ws", "cellh_trailing", lv])
